@@ -1,3 +1,260 @@
-//! C07 bounded native checks (not written yet)
+//! C07 bounded: rigid alignment on the REAL code (levenberg-marquardt driver, parry projections included).
+//! 3D reference: box 4x3x2 (non-solid).  Sample sets: (A) 54 points exactly on the six faces (3x3 per face, at least
+//! 0.5 from every edge); (B) "measured" set = the same points lifted off their face by deviations 0.02..0.08 varying
+//! from point to point, plus 6 points outside the box whose closest mesh point is on an EDGE, plus one point repeated
+//! bit-for-bit right after itself.  2D reference: closed L-shaped outline and closed 4x3 rectangle; (A) 7 points per edge
+//! strictly inside the edges, (B) the same points offset along the edge normals by varying deviations plus points beyond
+//! convex corners plus one repeated point.  Displacements: identity, translations up to 0.05, rotations up to 3 degrees,
+//! and a tiny one (3e-5, 4e-6 rad); starting guesses: identity, a small non-identity guess, and (3D) guesses with a pitch
+//! of exactly -90 / +90 degrees plus roll (sample set moved so that such a guess is in the basin); both DistMode values.
+//! Clauses: (A) the alignment succeeds and transform o displacement == identity within 1e-6; (A and B, every successful
+//! alignment) residual i == the mode-specific distance of transform * point i to the reference, recomputed by brute force
+//! over all triangles / segments (any of the nearest faces / edges where the closest point is on an edge / vertex), and
+//! the residual sum of squares is not larger than at the starting guess.
 use super::Report;
-pub fn run() -> Option<Report> { None }
+use crate::common::DistMode;
+use crate::geom2::align2::points_to_curve;
+use crate::geom2::{Curve2, Iso2, Point2, Vector2};
+use crate::geom3::align3::points_to_mesh;
+use crate::geom3::{Iso3, Mesh, Point3, Vector3};
+use parry3d_f64::na::{Translation3, UnitQuaternion};
+use std::f64::consts::FRAC_PI_2;
+
+const RTOL: f64 = 1e-9;
+
+// ---------------------------------------------------------------------------------------------- brute force
+fn seg_closest3(a: &Point3, b: &Point3, q: &Point3) -> Point3 { let ab = b - a; a + ab * ((q - a).dot(&ab) / ab.norm_squared()).clamp(0.0, 1.0) }
+fn tri_closest(a: &Point3, b: &Point3, c: &Point3, p: &Point3) -> Point3 {
+    let n = (b - a).cross(&(c - a));
+    let pp = p - n * ((p - a).dot(&n) / n.norm_squared());
+    let s0 = (b - a).cross(&(pp - a)).dot(&n);
+    let s1 = (c - b).cross(&(pp - b)).dot(&n);
+    let s2 = (a - c).cross(&(pp - c)).dot(&n);
+    if s0 >= 0.0 && s1 >= 0.0 && s2 >= 0.0 { return pp; }
+    let mut best = seg_closest3(a, b, p);
+    for (u, v) in [(b, c), (c, a)] { let x = seg_closest3(u, v, p); if (p - x).norm() < (p - best).norm() { best = x; } }
+    best
+}
+/// the admissible values of the residual of point m: (ToPoint distance, list of ToPlane values over all nearest faces)
+fn mesh_residuals(t: &[[Point3; 3]], m: &Point3) -> (f64, Vec<f64>) {
+    let cp: Vec<Point3> = t.iter().map(|x| tri_closest(&x[0], &x[1], &x[2], m)).collect();
+    let d: Vec<f64> = cp.iter().map(|c| (m - c).norm()).collect();
+    let dmin = d.iter().cloned().fold(f64::INFINITY, f64::min);
+    let mut planes = vec![];
+    for (k, x) in t.iter().enumerate() {
+        if d[k] <= dmin + 1e-9 {
+            let n = (x[1] - x[0]).cross(&(x[2] - x[0])).normalize();
+            planes.push(n.dot(&(m - cp[k])).abs());
+        }
+    }
+    (dmin, planes)
+}
+/// admissible signed residuals of point m against a closed 2D outline: n_e . (m - cp) over all nearest edges e
+fn curve_residuals(v: &[Point2], m: &Point2) -> Vec<f64> {
+    let mut cps = vec![];
+    for i in 0..v.len() - 1 {
+        let ab = v[i + 1] - v[i];
+        let cp = v[i] + ab * ((m - v[i]).dot(&ab) / ab.norm_squared()).clamp(0.0, 1.0);
+        let e = ab.normalize();
+        cps.push(((m - cp).norm(), Vector2::new(e.y, -e.x).dot(&(m - cp))));
+    }
+    let dmin = cps.iter().map(|x| x.0).fold(f64::INFINITY, f64::min);
+    cps.iter().filter(|x| x.0 <= dmin + 1e-9).map(|x| x.1).collect()
+}
+fn near(a: f64, b: f64) -> bool { (a - b).abs() <= RTOL * (1.0 + a.abs().max(b.abs())) }
+
+// ---------------------------------------------------------------------------------------------- 3D
+fn box_samples() -> (Vec<Point3>, Vec<Vector3>) {
+    let (w, h, d) = (4.0, 3.0, 2.0);
+    let mut pts = vec![];
+    let mut nrm = vec![];
+    for a in [0.5, 2.0, 3.5] { for b in [0.5, 1.5, 2.5] {
+        pts.push(Point3::new(a, b, 0.0)); nrm.push(-Vector3::z());
+        pts.push(Point3::new(a, b, d)); nrm.push(Vector3::z());
+    } }
+    for a in [0.5, 2.0, 3.5] { for c in [0.5, 1.0, 1.5] {
+        pts.push(Point3::new(a, 0.0, c)); nrm.push(-Vector3::y());
+        pts.push(Point3::new(a, h, c)); nrm.push(Vector3::y());
+    } }
+    for b in [0.5, 1.5, 2.5] { for c in [0.5, 1.0, 1.5] {
+        pts.push(Point3::new(0.0, b, c)); nrm.push(-Vector3::x());
+        pts.push(Point3::new(w, b, c)); nrm.push(Vector3::x());
+    } }
+    (pts, nrm)
+}
+fn measured3() -> Vec<Point3> {
+    let (p, n) = box_samples();
+    let mut out: Vec<Point3> = p.iter().zip(n.iter()).enumerate().map(|(k, (p, n))| p + n * (0.02 + 0.01 * ((k * 3) % 7) as f64)).collect();
+    // closest mesh point on an edge of the box
+    out.extend([Point3::new(-0.0625, -0.0625, 1.0), Point3::new(4.0625, 1.5, 2.03125), Point3::new(2.0, 3.0625, -0.03125),
+                Point3::new(-0.03125, 1.0, 2.0625), Point3::new(1.0, -0.0625, 2.0625), Point3::new(4.03125, 3.0625, 0.75)]);
+    // two bit-identical consecutive points (in the middle and at the very end)
+    let k = 20;
+    let rep = out[k];
+    out.insert(k, rep);
+    let last = *out.last().unwrap();
+    out.push(last);
+    out
+}
+
+fn iso3(t: (f64, f64, f64), e: (f64, f64, f64)) -> Iso3 { Iso3::from_parts(Translation3::new(t.0, t.1, t.2), UnitQuaternion::from_euler_angles(e.0, e.1, e.2)) }
+fn id_err3(t: &Iso3) -> f64 { (t.to_homogeneous() - Iso3::identity().to_homogeneous()).amax() }
+
+fn rss3(t: &[[Point3; 3]], pts: &[Point3], tf: &Iso3, to_point: bool) -> f64 {
+    pts.iter().map(|p| { let (d, pl) = mesh_residuals(t, &(tf * p)); let x = if to_point { d } else { pl.iter().cloned().fold(0.0, f64::max) }; x * x }).sum()
+}
+
+fn run3(r: &mut Report) {
+    let mesh = Mesh::create_box(4.0, 3.0, 2.0, false);
+    let t: Vec<[Point3; 3]> = mesh.faces().iter().map(|f| [mesh.vertices()[f[0] as usize], mesh.vertices()[f[1] as usize], mesh.vertices()[f[2] as usize]]).collect();
+    let (clean, _) = box_samples();
+    let meas = measured3();
+    let deg = std::f64::consts::PI / 180.0;
+    let disps: Vec<(&str, Iso3)> = vec![
+        ("identity", Iso3::identity()),
+        ("translation (0.05,-0.03,0.04)", iso3((0.05, -0.03, 0.04), (0.0, 0.0, 0.0))),
+        ("euler (0.01,-0.02,0.015) + (0.02,0.01,-0.03)", iso3((0.02, 0.01, -0.03), (0.01, -0.02, 0.015))),
+        ("3 degrees about (1,1,1)", Iso3::from_parts(Translation3::new(0.0, 0.0, 0.0), UnitQuaternion::from_axis_angle(&crate::geom3::UnitVec3::new_normalize(Vector3::new(1.0, 1.0, 1.0)), 3.0 * deg))),
+        ("-3 degrees about z + (-0.05,0.05,0.0)", iso3((-0.05, 0.05, 0.0), (0.0, 0.0, -3.0 * deg))),
+        ("tiny: (3e-5,-2e-5,1e-5) + euler (4e-6,0,-3e-6)", iso3((3.0e-5, -2.0e-5, 1.0e-5), (4.0e-6, 0.0, -3.0e-6))),
+    ];
+    // starting guesses: identity, a small one, and two with a pitch of exactly -/+ 90 degrees plus roll
+    let gm = Iso3::from_parts(Translation3::new(3.0, -2.0, 1.0), UnitQuaternion::from_euler_angles(1.5, 0.0, 0.0) * UnitQuaternion::from_euler_angles(0.0, -FRAC_PI_2, 0.0));
+    let gp = Iso3::from_parts(Translation3::new(-1.0, 0.5, 2.0), UnitQuaternion::from_euler_angles(-0.75, 0.0, 0.0) * UnitQuaternion::from_euler_angles(0.0, FRAC_PI_2, 0.0));
+    let guesses: Vec<(&str, Iso3)> = vec![
+        ("identity", Iso3::identity()),
+        ("small: euler (0.005,0.005,-0.005) + (0.01,-0.01,0.01)", iso3((0.01, -0.01, 0.01), (0.005, 0.005, -0.005))),
+        ("pitch -90 degrees: (3,-2,1) Rx(1.5) Ry(-pi/2)", gm),
+        ("pitch +90 degrees: (-1,0.5,2) Rx(-0.75) Ry(pi/2)", gp),
+    ];
+    for (set, base) in [("A: on the faces", &clean), ("B: measured", &meas)] {
+        for (dn, disp) in disps.iter() { for (gi, (gn, guess)) in guesses.iter().enumerate() {
+            // a gimbal-lock guess is tried with the sample set moved so that the guess is the exact answer (displacement
+            // "identity") or off by the small displacements only
+            if gi >= 2 && !(dn.starts_with("identity") || dn.starts_with("tiny") || dn.starts_with("translation")) { continue; }
+            // total displacement of the samples: for guess G (gi >= 2) the samples are G^-1 * disp * base
+            let total = if gi >= 2 { guess.inverse() * disp } else { *disp };
+            let pts: Vec<Point3> = base.iter().map(|p| total * p).collect();
+            for to_point in [false, true] {
+                r.case();
+                let mode = if to_point { DistMode::ToPoint } else { DistMode::ToPlane };
+                let d = || format!("3D box 4x3x2, sample set {}, displacement {}, guess {}, mode {}", set, dn, gn, if to_point { "ToPoint" } else { "ToPlane" });
+                let res = points_to_mesh(&pts, &mesh, guess, mode);
+                let al = match res {
+                    Ok(a) => a,
+                    Err(_) => { if set.starts_with('A') { r.check(false, "3D: alignment of a displacement inside the basin succeeds", d); } continue; }
+                };
+                if set.starts_with('A') {
+                    let e = id_err3(&(al.transform() * total));
+                    // own clause name: ToPoint mode with sample points lying exactly on the mesh at the starting guess (their
+                    // jacobian rows are zero; with an in-plane displacement a whole column is zero and the driver stops
+                    // "successfully" at the starting guess)
+                    let on_at_start = pts.iter().any(|p| mesh_residuals(&t, &(guess * p)).0 < 1e-8);
+                    if to_point && on_at_start {
+                        r.check(e < 1e-6, "[ToPoint, sample points exactly on the mesh at the starting guess] 3D: returned transform composed with the displacement is the identity within 1e-6", || format!("{}: max |entry of transform*displacement - I| = {:?}", d(), e));
+                    } else {
+                        r.check(e < 1e-6, "3D: returned transform composed with the displacement is the identity within 1e-6", || format!("{}: max |entry of transform*displacement - I| = {:?}", d(), e));
+                    }
+                }
+                r.check(al.residuals().len() == pts.len(), "3D: one residual per input point", d);
+                if al.residuals().len() != pts.len() { continue; }
+                let mut ok = true;
+                let mut worst = (0usize, 0.0, 0.0);
+                for (i, p) in pts.iter().enumerate() {
+                    let (dist, planes) = mesh_residuals(&t, &(al.transform() * p));
+                    let got = al.residuals()[i];
+                    let fine = if to_point { near(got, dist) } else { planes.iter().any(|x| near(got, *x)) };
+                    if !fine && ok { ok = false; worst = (i, got, if to_point { dist } else { planes[0] }); }
+                }
+                r.check(ok, "3D: residual i is the mode-specific distance of (returned transform * input point i) to the mesh", || format!("{}: residual[{}] = {:?}, recomputed {:?}", d(), worst.0, worst.1, worst.2));
+                let end: f64 = al.residuals().iter().map(|x| x * x).sum();
+                let start = rss3(&t, &pts, guess, to_point);
+                r.check(end <= start + 1e-12 * (1.0 + start), "3D: the residual sum of squares is not larger than at the starting guess", || format!("{}: start {:?} end {:?}", d(), start, end));
+            }
+        } }
+    }
+}
+
+// ---------------------------------------------------------------------------------------------- 2D
+fn outline_samples(v: &[Point2], dev: bool) -> Vec<Point2> {
+    let mut out = vec![];
+    let mut k = 0usize;
+    for i in 0..v.len() - 1 {
+        let ab = v[i + 1] - v[i];
+        let e = ab.normalize();
+        let n = Vector2::new(e.y, -e.x);
+        for j in 1..8 {
+            k += 1;
+            let off = if dev { 0.02 + 0.01 * ((k * 3) % 7) as f64 } else { 0.0 };
+            out.push(v[i] + ab * (j as f64 / 8.0) + n * off);
+        }
+    }
+    if dev {
+        // beyond convex corners (closest outline point is a vertex), and a bit-identical repeat
+        out.extend([v[0] + Vector2::new(-0.0625, -0.03125), v[1] + Vector2::new(0.03125, -0.0625)]);
+        let rep = out[10];
+        out.insert(10, rep);
+        let last = *out.last().unwrap();
+        out.push(last);
+    }
+    out
+}
+fn id_err2(t: &Iso2) -> f64 { (t.to_homogeneous() - Iso2::identity().to_homogeneous()).amax() }
+
+fn run2(r: &mut Report) {
+    let p = |x: f64, y: f64| Point2::new(x, y);
+    let shapes: Vec<(&str, Vec<Point2>)> = vec![
+        ("closed L outline (0,0),(6,0),(6,2),(3,2),(3,4),(0,4)", vec![p(0.0, 0.0), p(6.0, 0.0), p(6.0, 2.0), p(3.0, 2.0), p(3.0, 4.0), p(0.0, 4.0), p(0.0, 0.0)]),
+        ("closed rectangle 4x3", vec![p(0.0, 0.0), p(4.0, 0.0), p(4.0, 3.0), p(0.0, 3.0), p(0.0, 0.0)]),
+    ];
+    let deg = std::f64::consts::PI / 180.0;
+    let disps: Vec<(&str, Iso2)> = vec![
+        ("identity", Iso2::identity()),
+        ("(0.04,-0.03) + 0.02 rad", Iso2::translation(0.04, -0.03) * Iso2::rotation(0.02)),
+        ("(0.05,0.05) + 3 degrees", Iso2::translation(0.05, 0.05) * Iso2::rotation(3.0 * deg)),
+        ("(-0.05,0.0) - 3 degrees", Iso2::translation(-0.05, 0.0) * Iso2::rotation(-3.0 * deg)),
+        ("tiny: (3e-5,-2e-5) + 4e-6 rad", Iso2::translation(3.0e-5, -2.0e-5) * Iso2::rotation(4.0e-6)),
+        ("tiny: (1e-5,1e-5)", Iso2::translation(1.0e-5, 1.0e-5)),
+    ];
+    let guesses: Vec<(&str, Iso2)> = vec![("identity", Iso2::identity()), ("(0.01,-0.01) + 0.005 rad", Iso2::translation(0.01, -0.01) * Iso2::rotation(0.005))];
+    for (sn, verts) in shapes.iter() {
+        let curve = Curve2::from_points(verts, 1e-8, true).unwrap();
+        let v = curve.points().to_vec();
+        for (set, dev) in [("A: on the outline", false), ("B: measured", true)] {
+            let base = outline_samples(&v, dev);
+            for (dn, disp) in disps.iter() { for (gn, guess) in guesses.iter() {
+                r.case();
+                let pts: Vec<Point2> = base.iter().map(|q| disp * q).collect();
+                let d = || format!("2D {}, sample set {}, displacement {}, guess {}", sn, set, dn, gn);
+                let al = match points_to_curve(&pts, &curve, guess) {
+                    Ok(a) => a,
+                    Err(_) => { if !dev { r.check(false, "2D: alignment of a displacement inside the basin succeeds", d); } continue; }
+                };
+                if !dev {
+                    let e = id_err2(&(al.transform() * disp));
+                    r.check(e < 1e-6, "2D: returned transform composed with the displacement is the identity within 1e-6", || format!("{}: max |entry of transform*displacement - I| = {:?}", d(), e));
+                }
+                r.check(al.residuals().len() == pts.len(), "2D: one residual per input point", d);
+                if al.residuals().len() != pts.len() { continue; }
+                let mut ok = true;
+                let mut worst = (0usize, 0.0, 0.0);
+                for (i, q) in pts.iter().enumerate() {
+                    let want = curve_residuals(&v, &(al.transform() * q));
+                    let got = al.residuals()[i];
+                    if !want.iter().any(|x| near(got, *x)) && ok { ok = false; worst = (i, got, want[0]); }
+                }
+                r.check(ok, "2D: residual i is the signed distance of (returned transform * input point i) to the curve along the edge normal", || format!("{}: residual[{}] = {:?}, recomputed {:?}", d(), worst.0, worst.1, worst.2));
+                let end: f64 = al.residuals().iter().map(|x| x * x).sum();
+                let start: f64 = pts.iter().map(|q| { let w = curve_residuals(&v, &(guess * q)); let x = w.iter().map(|x| x.abs()).fold(0.0, f64::max); x * x }).sum();
+                r.check(end <= start + 1e-12 * (1.0 + start), "2D: the residual sum of squares is not larger than at the starting guess", || format!("{}: start {:?} end {:?}", d(), start, end));
+            } }
+        }
+    }
+}
+
+pub fn run() -> Option<Report> {
+    let mut r = Report::new("3D: box 4x3x2, sample sets A (54 points on the faces) and B (lifted 0.02..0.08 off the faces + 6 edge-closest points + 2 bit-identical repeats), 6 displacements (translations <= 0.05, rotations <= 3 degrees, one of size 3e-5) x 4 starting guesses (identity, small, pitch exactly -90 / +90 degrees plus roll) x {ToPlane, ToPoint}; 2D: closed L outline and 4x3 rectangle, sets A (7 points per edge) and B (offset 0.02..0.08 + 2 corner-closest points + 2 repeats), 6 displacements x 2 guesses; recovery tolerance 1e-6, residual tolerance 1e-9 relative");
+    run3(&mut r);
+    run2(&mut r);
+    Some(r)
+}
